@@ -63,6 +63,7 @@ func (e Event) Str(k string) string {
 
 // Gate holds goroutines that arrive at matching gate hooks.
 type Gate struct {
+	anyEvent bool
 	t       *Tracer
 	match   func(e Event) bool
 	mu      sync.Mutex
@@ -144,6 +145,20 @@ func (t *Tracer) hook(gate bool, ev string, node uint32, msg uint64, kv []interf
 		if held != nil {
 			held.wait()
 		}
+		return
+	}
+	// a hold on an ordinary event (only for events that are logged outside every critical section)
+	t.mu.Lock()
+	var held *Gate
+	for _, g := range t.gates {
+		if g.anyEvent && g.match(rec) {
+			held = g
+			break
+		}
+	}
+	t.mu.Unlock()
+	if held != nil {
+		held.wait()
 	}
 }
 
@@ -267,6 +282,16 @@ func (t *Tracer) Stop() {
 	t.mu.Lock()
 	t.off = true
 	t.mu.Unlock()
+}
+
+// NewHold installs a closed gate that also holds goroutines at matching ordinary events.  Only for
+// events that the library logs outside every critical section (SenderExit).
+func (t *Tracer) NewHold(match func(e Event) bool) *Gate {
+	g := t.NewGate(match)
+	g.mu.Lock()
+	g.anyEvent = true
+	g.mu.Unlock()
+	return g
 }
 
 // NewGate installs a closed gate for the matching gate hooks.
